@@ -53,6 +53,13 @@ def run_cases(ctx, exe, orac, cases, prop, label):
                     ctx.violation("[C08] the runtime crashed after acquire_configure was called while a stream was running: %s" % (err or "")[-600:],
                                   {"program": prog, "stderr": (err or "")[-3000:], "tail": lines[-10:]}, key="C08:" + info[0])
                 continue
+            if "LeakSanitizer" in (err or "") and any(l.startswith("END") for l in lines) and "drv_open" in err:
+                # the run finished; a device object the driver allocated in open was never handed back to its close
+                if prop == "C08":
+                    ctx.violation("[C08] a device the runtime opened was never closed (the mock driver's object is still allocated at exit: "
+                                  "LeakSanitizer): %s" % " / ".join(l.strip() for l in err.split("\n") if " in " in l and ("_configure" in l or "_open" in l))[:500],
+                                  {"program": prog, "stderr": (err or "")[-3000:], "tail": lines[-10:]}, key="C08:device-never-closed")
+                continue
             ctx.violation("[%s] the runtime crashed or a sanitizer reported an error: %s" % (prop, (err or "")[-600:]),
                           {"program": prog, "stderr": (err or "")[-3000:], "tail": lines[-10:]}, key=prop + ":crash")
             continue
